@@ -92,6 +92,21 @@ func vxArg(id string, shapes int) ast.Constant {
 	return ast.String(strs[vxChoose(id+"_s", len(strs))])
 }
 
+// vxListing is a read-only store that additionally lists predicates without any fact
+// (what a store backed by declarations would do); WriteTo accepts any ReadOnlyFactStore.
+type vxListing struct {
+	ReadOnlyFactStore
+	extra []ast.PredicateSym
+	front bool
+}
+
+func (l vxListing) ListPredicates() []ast.PredicateSym {
+	if l.front {
+		return append(append([]ast.PredicateSym{}, l.extra...), l.ReadOnlyFactStore.ListPredicates()...)
+	}
+	return append(l.ReadOnlyFactStore.ListPredicates(), l.extra...)
+}
+
 // VxC19RoundTrip: write a store with up to P predicates (arity and fact count per case index) and read it
 // back eagerly (ReadInto) and lazily (SimpleColumnStore.GetFacts with pattern queries).
 func VxC19RoundTrip() {
@@ -128,9 +143,17 @@ func VxC19RoundTrip() {
 		atoms = atoms[1:]
 		vxTag("predicate-listed-without-facts")
 	}
+	var wsrc ReadOnlyFactStore = src
+	if vxParam("LISTEMPTY", 0) == 1 {
+		// the written store also lists predicates that have no facts, zero-arity ones included
+		extra := []ast.PredicateSym{{Symbol: "e0", Arity: 0}, {Symbol: "e1", Arity: 1}}[:1+vxChoose("extra", 2)]
+		wsrc = vxListing{src, extra, vxChoose("extrafront", 2) == 1}
+		preds = append(preds, extra...)
+		vxTag("source-lists-empty-predicates")
+	}
 	var buf vxBuf
 	sc := SimpleColumn{Deterministic: det}
-	err := sc.WriteTo(src, &buf)
+	err := sc.WriteTo(wsrc, &buf)
 	vxAssert(err == nil, "write-no-error")
 	data := buf.Bytes()
 	// eager
@@ -217,10 +240,36 @@ func VxC19Deterministic() {
 	var atoms []ast.Atom
 	for i := 0; i < n; i++ {
 		sym := ast.PredicateSym{Symbol: []string{"p", "q"}[vxChoose(fmt.Sprintf("pr%d", i), 2)], Arity: 1}
-		atoms = append(atoms, ast.Atom{Predicate: sym, Args: []ast.BaseTerm{vxArg(fmt.Sprintf("d%d", i), shapes)}})
+		var arg ast.Constant
+		if vxParam("HASHEQ", 0) == 1 {
+			// constants of different kinds with equal hashes (Constant.Hash is the payload):
+			// the order of hash-equal atoms must not leak into the bytes either
+			v := []int64{7, 90000000000}[vxChoose(fmt.Sprintf("hv%d", i), 2)]
+			switch vxChoose(fmt.Sprintf("hk%d", i), vxParam("KINDS", 2)) {
+			case 0:
+				arg = ast.Number(v)
+			case 1:
+				arg = ast.Duration(v)
+			default:
+				arg = ast.Time(v)
+			}
+		} else {
+			arg = vxArg(fmt.Sprintf("d%d", i), shapes)
+		}
+		at := ast.Atom{Predicate: sym, Args: []ast.BaseTerm{arg}}
+		dup := false
+		for _, b := range atoms {
+			if vxAtomEq(b, at) {
+				dup = true
+			}
+		}
+		if !dup {
+			atoms = append(atoms, at)
+		}
 	}
 	write := func(order int, rev bool) []byte {
-		st := NewSimpleInMemoryStore()
+		// a bucketed store: hash-equal distinct atoms are both kept
+		st := NewMultiIndexedArrayInMemoryStore()
 		if rev {
 			for i := len(atoms) - 1; i >= 0; i-- {
 				st.Add(atoms[i])
